@@ -92,11 +92,11 @@ def param_keys(b):
 FIELD_SUMMARY = {"F": None, "memo": {}}
 
 
-def _field_args(callee, fld):
+def _field_args(callee, fpath):
     F = FIELD_SUMMARY["F"]
     if F is None or not callee:
         return None
-    key = (id(F), callee, fld)
+    key = (id(F), callee, tuple(fpath))
     memo = FIELD_SUMMARY["memo"]
     if key in memo:
         return memo[key]
@@ -104,7 +104,7 @@ def _field_args(callee, fld):
     cb = F.body(callee) if F.has(callee) else None
     if cb is None or not cb.mir:
         return None
-    ds = deps(cb, mir.Defs(cb), 0, proj=[["f", fld]])
+    ds = deps(cb, mir.Defs(cb), 0, proj=[["f", x] for x in fpath])
     pos = set()
     for x in ds:
         h = x.split(".")[0]
@@ -114,14 +114,28 @@ def _field_args(callee, fld):
     return memo[key]
 
 
+def _field_path(proj):
+    """the leading field indices of a projection; enum downcasts are skipped (`((x as Some).0).1` -> [0, 1])"""
+    out = []
+    for x in proj or []:
+        if isinstance(x, list) and x and x[0] == "v":
+            continue
+        if isinstance(x, list) and x and x[0] == "f" and isinstance(x[1], int):
+            out.append(x[1])
+            continue
+        break
+    return out
+
+
 def deps(b, defs, local, depth=0, seen=None, proj=None):
     """Set of origin roots ('argN...') a local depends on through calls and assignments. `proj` is the projection with which
-    the local is read: a field read out of a tuple built in place only depends on that component."""
+    the local is read: a field read out of a tuple (or `Some((a, b))`) built in place only depends on that component."""
     if seen is None:
         seen = set()
     out = set()
-    fld = proj[0][1] if proj and isinstance(proj[0], list) and proj[0] and proj[0][0] == "f" and isinstance(proj[0][1], int) else None
-    key = (local, fld)
+    fpath = _field_path(proj)
+    fld = fpath[0] if fpath else None
+    key = (local, tuple(fpath))
     if key in seen or depth > 40:
         return out
     seen.add(key)
@@ -131,16 +145,21 @@ def deps(b, defs, local, depth=0, seen=None, proj=None):
     for d in defs.defs.get(local, []):
         s = d[3]
         ops = []
+        rest = []
         if d[2] == "call":
             ops = s["args"]
             if fld is not None and len(s["dest"]) == 1:
-                pos = _field_args(mir.callee(s), fld)
+                pos = _field_args(mir.callee(s), fpath)
                 if pos is not None:
                     ops = [s["args"][i - 1] for i in pos if i - 1 < len(s["args"])]
         elif d[2] == "assign":
             rv = s["rv"]
-            if rv["k"] == "agg" and rv.get("ak") == "tuple" and fld is not None and fld < len(rv.get("ops", [])) and len(s["p"]) == 1:
-                ops = [rv["ops"][fld]]
+            if rv["k"] == "agg" and rv.get("ak") in ("tuple", "adt") and fld is not None and len(s["p"]) == 1 and (rv.get("ak") == "tuple" or rv.get("ops") is not None):
+                ops = [rv["ops"][fld]] if fld < len(rv.get("ops", [])) else []
+                rest = [["f", x] for x in fpath[1:]]
+            elif rv["k"] == "use" and mir.is_place_op(rv["o"]) and fpath and len(s["p"]) == 1:
+                ops = [rv["o"]]
+                rest = [["f", x] for x in fpath]      # a whole-value move keeps the shape: the same component of the source
             else:
                 for k in ("o", "a", "b"):
                     if k in rv:
@@ -154,7 +173,7 @@ def deps(b, defs, local, depth=0, seen=None, proj=None):
                 if 1 <= pl[0] <= argc:
                     out.add("arg%d" % pl[0] + "".join("." + x for x in mir.normalize_path(mir.proj_str(pl[1:]))))
                 else:
-                    out |= deps(b, defs, pl[0], depth + 1, seen, pl[1:])
+                    out |= deps(b, defs, pl[0], depth + 1, seen, list(pl[1:]) + rest)
     return out
 
 
